@@ -59,7 +59,7 @@ Definition run_file (v : val) : val :=
   | VL [VL [VN kind; VN ino; VN size; VN mtime; VN a; VN e; flens; shorts; VN np]; obs] =>
       match vlist vnum flens, vlist vnum shorts with
       | Some flens, Some shorts =>
-          let m := {| f_is_file := kind =? 0; f_ino := ino; f_len := size; f_mtime_ns := mtime |} in
+          let m := {| f_is_file := (kind =? 0) || (kind =? 3); f_ino := ino; f_len := size; f_mtime_ns := mtime |} in
           match crf_new m, obs with
           | None, VL [VN 0] => VL [finding K_TAG (bs "refused") (VL []) (VL [])]
           | None, _ => VL [finding K_TAG (bs "refused") (VL []) (VL []); finding K_DIVERGE F_F_NEW (VL [VN 0]) obs;
@@ -69,7 +69,6 @@ Definition run_file (v : val) : val :=
               let opolls2 := map (fun v => match v with VL [VN 0; n; _] => VL [VN 0; n] | x => x end) opolls in
               (* framing-independent comparison: the model is polled far enough to reach its terminal event *)
               (* (used for files that are not truncated: every read sees the full length and is not cut short) *)
-              let mext := model_polls [] [] (N.to_nat ((e - a) / 65536) + 4) {| r_start := a; r_end := e; r_reads := 0 |} in
               let opolls := upto_terminal opolls in
               let truncated := existsb (fun l => l <? e) flens in
               let tag := if truncated then bs "truncated" else if a =? e then bs "empty-range" else bs "intact" in
@@ -80,11 +79,16 @@ Definition run_file (v : val) : val :=
                       (* when the file is truncated under the stream, where the failure lands depends on how the
                          reads are cut: the oracle below states what is required then *)
                       if (ok =? 0) || truncated then [] else
-                      let (mb, mk) := summary mext in
+                      (* (evaluated only here: the extracted code is strict, and a range of gigabytes means 65 536 model polls) *)
+                      let (mb, mk) := summary (model_polls [] [] (N.to_nat ((e - a) / 65536) + 4) {| r_start := a; r_end := e; r_reads := 0 |}) in
                       cmp_field F_F_END (VN mk) (VN ok) ++ (if (ok =? 2) && (mk =? 2) then cmp_field F_F_TOTAL (VN mb) (VN ob) else []))
                   ++ (if obs_chunks_ok opolls then [] else [fclause "chunks-non-empty-and-the-file-bytes"])
                   ++ (if negb truncated then
-                        (if obs_has 2 opolls && negb (obs_has 1 (before_end opolls)) && (obs_total (before_end opolls) =? e - a) then []
+                        (* the harness stops after 16 polls: a stream that has not finished by then (a range of
+                           more than a megabyte) must have delivered only good chunks within the range so far *)
+                        (if (snd (summary opolls) =? 0) && (16 <=? np) then
+                           (if obs_total opolls <=? e - a then [] else [fclause "intact-file-yields-exactly-the-range-then-ends"])
+                         else if obs_has 2 opolls && negb (obs_has 1 (before_end opolls)) && (obs_total (before_end opolls) =? e - a) then []
                          else [fclause "intact-file-yields-exactly-the-range-then-ends"])
                       else
                         (* truncated below the range end before some read: if the stream ended cleanly it must
